@@ -85,6 +85,14 @@ DIRECTED = [
     # catchable errors in the very first run of a peer (empty previous data)
     '(seq (null) (fail 7 "first run"))',
     '(seq (call "@B" ("s" "tag") []) (xor (fail 1 "a") (match 1 2 (null))))',
+    # (added after the seeded change C02-iterator-ap-keeps-iterable-position was missed) every way a value can reach a stream,
+    # over several runs of one peer, so that the farewell step compactifies non-empty previous data: a compactification failure
+    # answers a 2xxxx code with EMPTY data
+    '(seq (call "@A" ("s" "arr") [] xs) (seq (fold xs x (seq (ap x $s) (next x))) (seq (call "@A" ("s" "tag") [] t) (call "@B" ("s" "tag") [t]))))',
+    '(seq (call "@A" ("s" "arr2") [] xs) (seq (fold xs x (seq (ap x.$.[0] $s) (next x))) (seq (call "@A" ("s" "tag") [] t) (seq (canon "@A" $s #can) (call "@B" ("s" "id") [#can])))))',
+    '(seq (call "@A" ("s" "obj") [] o) (seq (seq (ap o $s) (seq (ap o.$.l $s) (ap ("k" o.$.f) %m))) (seq (call "@A" ("s" "tag") [] t) (seq (fold $s i (seq (ap i $s2) (next i)) (null)) (call "@B" ("s" "tag") [t])))))',
+    '(seq (call "@A" ("s" "tag") [] $a) (seq (canon "@A" $a #ca) (seq (fold #ca e (seq (ap e $s) (next e))) (seq (ap #ca $s) (seq (call "@A" ("s" "num") [] n) (call "@B" ("s" "tag") [n]))))))',
+    '(new $s (seq (call "@A" ("s" "arr") [] xs) (seq (fold xs x (seq (ap x $s) (next x))) (seq (call "@A" ("s" "tag") [] t) (call "@B" ("s" "tag") [t])))))',
     # remote hop and back, results on both peers, canon and stream
     '(seq (call "@A" ("s" "num") [] x) (seq (call "@B" ("s" "tag") [x] $s) (seq (call "@B" ("s" "arr") [] $s) (seq (canon "@A" $s #can) (call "@A" ("s" "id") [#can] r)))))',
 ]
